@@ -1027,11 +1027,11 @@ def process(ctx, exe, mexe, hists, impl, tot):
 
 
 def replay(ctx, path):
-    r = json.load(open(path))
+    import replaylib
+    r = replaylib.load("C11", path)
     ops = r.get("ops")
     if not ops:
-        print("replay file has no history (it names a proof obligation): ", json.dumps(r.get("no_longer_checks", r), indent=1)[:3000])
-        return 1
+        return replaylib.obligations("C11", run, r, path)
     exe = build(ctx)
     if exe is None:
         print("build failed")
